@@ -93,13 +93,43 @@ def directed():
     return out
 
 
+def revisit_family():
+    """a NON-LEAF file (include block at start / middle / end, absolute or relative include, plain file or
+    init.yaml) reached twice for one system with a conflicting piece in between: repetition in top.yaml,
+    several matching targets, diamond includes, repetition inside an include list.  The included leaf
+    must override the in-between piece again at the second occurrence."""
+    leaf = "v: leaf\nn: {a: leaf, b: leaf}\n"
+    mid = "v: mid\nn: {a: mid}\n"
+    layouts = {
+        "start": "include: [%s]\nw: 1\n",
+        "middle": "u: 1\ninclude: [%s]\nw: 1\n",
+        "end": "u: 1\ninclude: [%s]\n",
+    }
+    out = []
+    for lname, lay in layouts.items():
+        # (shared-file path, name to reference it, include expression for the leaf, leaf path)
+        for spath, sname, inc, lpath in (("s.yaml", "s", "l", "l.yaml"),
+                                         ("d/s.yaml", "d.s", ".l", "d/l.yaml"),
+                                         ("d/init.yaml", "d", ".l", "d/l.yaml")):
+            shared = {spath: lay % inc, lpath: leaf, "m.yaml": mid}
+            out.append(dict(shared, **{"top.yaml": "'*': [%s, m, %s]\n" % (sname, sname)}))
+            out.append(dict(shared, **{"top.yaml": "'*': [%s, m]\n's*': [%s]\n" % (sname, sname)}))
+            out.append(dict(shared, **{"top.yaml": "'*': [x, y]\n", "x.yaml": "include: [%s]\n" % sname,
+                                       "y.yaml": "v: mid\nn: {a: mid}\ninclude: [%s]\nt: 2\n" % sname}))
+            out.append(dict(shared, **{"top.yaml": "'*': [x, m, y]\n", "x.yaml": "include: [%s]\n" % sname,
+                                       "y.yaml": "include: [%s]\nt: 2\n" % sname}))
+            out.append(dict(shared, **{"top.yaml": "'*': [x]\n", "x.yaml": "q: 0\ninclude: [%s, m, %s]\n" % (sname, sname)}))
+    return out
+
+
 class C11(Check):
     ident = "C11"
     technique = ("Coq proofs about a Gallina model of _DataCompiler (top evaluation, name resolution, relative includes, "
                  "three-way split, depth-first expansion with cycle check) against a cache-free recursive specification, "
                  "+ differential correspondence with the real YamlTargetSource on generated directory trees")
     rule = ("case = (directory tree of <= 8 YAML/Jinja files incl. top.yaml, template engine on/off, merge flags, "
-            "allow_empty_top, system id, preceding data); directed trees for every mechanism x all ids x preceding data x "
+            "allow_empty_top, system id, preceding data); the revisit family (a non-leaf file reached twice with a conflicting "
+            "piece in between: 3 include positions x 3 file kinds x 5 ways of reaching it twice); directed trees for every mechanism x all ids x preceding data x "
             "engine, then seeded random trees; non-trivial = get_data succeeded with >= 2 pieces or raised a "
             "non-top error; distinct by (tree, id, preceding data, flags)")
     assumptions = [
@@ -109,6 +139,11 @@ class C11(Check):
     ]
 
     def gen(self, tier, rng):
+        for tree in revisit_family():
+            for engine in (False, True):
+                for ml in (False, True):
+                    yield {"tree": tree, "engine": engine, "ml": ml, "ms": True, "allow_empty": False,
+                           "sys": "s1", "pd": {}, "pv": ""}
         for tree in directed():
             for engine in (False, True):
                 for sysid in ("s1", "s2"):
